@@ -270,6 +270,8 @@ class C04(Check):
         out = [('long', n, fill) for n in ((64, 600, 3000) if self.tier == 'quick' else (64, 600, 3000, 20000))
                for fill in ('K', 'mixed', 'nested')]
         out += [('long', n, fill) for n in (3000, 20000) for fill in ('foreign', 'foreign+gen')]
+        # exact boundaries: n stand-alone records, then another call starts and ends, then the END (n = 2^k-2 .. 2^k+2)
+        out += [('long', n, fill) for k in range(6, 14 if self.tier == 'quick' else 16) for n in range(2 ** k - 2, 2 ** k + 3) for fill in ('late-start', 'late-start+gen')]
         for a, d in self.plan():
             n = len(alphabet(a).syms)
             if n ** d > 5_000_000:
@@ -294,6 +296,8 @@ class C04(Check):
             pat = [sym[(1, 'K:MACH_vm_page_release', 0)], sym[(1, 'BSC_getuid', 0)], sym[(2, 'BSC_getpid', 1)], sym[(1, 'TRACE_DATA_EXEC', 0)],
                    sym[(1, 'U', 3)], sym[(2, 'BSC_getpid', 2)]]
             body = [pat[i % len(pat)] for i in range(n)]
+        elif fill.startswith('late-start'):
+            body = [sym[(1, 'K:MACH_vm_page_release', 0)]] * n + [sym[(1, 'BSC_getuid', 1)], sym[(1, 'BSC_getuid', 0)], sym[(1, 'BSC_getuid', 2)]]
         elif fill.startswith('foreign'):
             # the window's thread is silent while another thread emits n records (complete calls and stand-alone records)
             pat = [sym[(2, 'BSC_getuid', 1)], sym[(2, 'K:MACH_vm_page_release', 0)], sym[(2, 'BSC_getuid', 2)], sym[(2, 'TRACE_DATA_EXEC', 0)]]
